@@ -163,8 +163,19 @@ pub fn step_market_op<const N: usize, const L: usize, const WHICH: u8>(m: usize,
             // omitted or restated: (None, Some v) reduces in place or re-queues at v == volume,
             // (Some current price, _) always re-queues
             assume(nv >= 1 && nv <= entry_order(&pa.e[id]).vol);
-            let np = if any_bool() { Some(entry_order(&pa.e[id]).price) } else { None };
-            let nvo = if np.is_none() || any_bool() { Some(nv) } else { None };
+            // 8 / 9: the event with a CONCRETE option shape ((Some price, None) / (None, Some volume)) - tried in
+            // order to keep `Event`'s niche-encoded discriminant concrete; the Modify event through the market
+            // still needs ~20 GB and runs out of memory, so no harness is registered for 7, 8, 9.
+            let np = match which {
+                8 => Some(entry_order(&pa.e[id]).price),
+                9 => None,
+                _ => if any_bool() { Some(entry_order(&pa.e[id]).price) } else { None },
+            };
+            let nvo = match which {
+                8 => None,
+                9 => Some(nv),
+                _ => if np.is_none() || any_bool() { Some(nv) } else { None },
+            };
             if let Some(px) = np {
                 assume(px > 0 && px < Price::MAX);
             }
@@ -189,8 +200,8 @@ pub fn step_market_op<const N: usize, const L: usize, const WHICH: u8>(m: usize,
     vcover!(which == 1 && active(&r.e[m]), "cover.placed_on_addressed_asset");
     vcover!(which == 5 && entry_order(&pa.e[id]).status == Status::New, "cover.new_event_routed");
     vcover!(which == 6 && active(&pa.e[id]), "cover.cancel_event_routed");
-    vcover!(which == 7 && active(&pa.e[id]), "cover.modify_event_routed");
-    vcover!((which == 4 || which == 7) && active(&pa.e[id]) && entry_key_time(&r.e[id]) != entry_key_time(&pa.e[id]), "cover.modify_requeued");
+    vcover!(which >= 7 && active(&pa.e[id]), "cover.modify_event_routed");
+    vcover!((which == 4 || which >= 7) && active(&pa.e[id]) && entry_key_time(&r.e[id]) != entry_key_time(&pa.e[id]), "cover.modify_requeued");
     core::mem::forget(market);
 }
 
